@@ -1,4 +1,6 @@
 import PsV.Proofs.Fit
+import PsV.Proofs.FitEntry
+import PsV.Proofs.FitUnderdet
 /-!
 # C13 — fit rejects inconsistent arguments instead of corrupting memory
 
@@ -311,5 +313,533 @@ example : fitChecks repaired (CArgs.view ⟨good.data, [2, 0], good.knots, [true
 example : (cGlamfit repaired false false ⟨good.data, [2, 0], good.knots, [true, true], [0, 0], 1⟩ true none).1 = 0 ∧
     (cGlamfit repaired true false ⟨good.data, [2, 0], good.knots, [true, true], [0, 0], 1⟩ true none).1 = 1 ∧
     (cGlamfit repaired false false ⟨good.data, [2, 0], good.knots, [true, true], [0, 3], 1⟩ true none).1 = 1 := by decide
+
+
+/-! ## The validator against each modelled consumer
+
+What the repaired sanity block accepts satisfies the precondition of every consumer behind it, for all argument
+shapes (any number of dimensions, any list lengths — the hypotheses are only "the block fell through" and the
+well-formedness of the C struct that no code can check).  One theorem per consumer, stated on the consumer's own
+definition, plus the exactness of the penalty-order bound for the stack arrays. -/
+
+/-- weights ↔ data, and the broadcast rules: `smoothing` and `penaltyOrder` have one entry or one per dimension, and
+    the entry `fit` picks for dimension `i` exists. -/
+theorem accepted_shapes (a : Args) (hc : fitChecks repaired a = .ok) :
+    a.nweights = a.data.rows ∧ a.coordLens.length = a.data.ndim ∧ a.orders.length = a.data.ndim ∧
+    a.knots.length = a.data.ndim ∧
+    (∀ i, i < a.data.ndim → a.smoothIdx i < a.smoothNZ.length ∧ a.penIdx i < a.penalty.length) ∧
+    (a.monodim = noMonodim ∨ a.monodim < a.data.ndim) := by
+  have hn := checks_imply_needs a hc
+  exact ⟨hn.nweights, hn.ncoords, hn.norders, hn.nknotvecs,
+    fun i hi => ⟨smoothIdx_lt hn.nsmooth hi, penIdx_lt hn.npenalty hi⟩, hn.monodim⟩
+
+/-- `bsplinebasis` (and `bspline` under it) for dimension `i`: reads `coords[i][0 .. ranges[i])`, the knots
+    `[col .. col+order+1]` and writes the `ranges[i] × nsplines` cells — all in bounds. -/
+theorem accepted_bsplinebasis_safe (a : Args) (hc : fitChecks repaired a = .ok) (i : Nat) (hi : i < a.data.ndim) :
+    a.rangeOf i ≤ a.coordLen i ∧ sortedB (a.knotsAt i) = true ∧ 2 * a.ordAt i + 2 ≤ a.nkAt i ∧
+    bsplineBasis (a.nkAt i) (a.rangeOf i) (a.coordLen i) (a.ordAt i) = .ok := by
+  have hn := checks_imply_needs a hc
+  have := hn.knots_len i hi
+  exact ⟨hn.coord_len i hi, hn.sorted i hi, this, bsplineBasis_ok (by omega) (hn.coord_len i hi)⟩
+
+/-- `divided_diffs` as `calc_penalty` calls it for dimension `i` and any row of the difference matrix: the penalty
+    order is at most the spline order (hence at most the `order+1` cells of `a`, `b`), and the recursion stays inside
+    `a`, `b`, `divd` and the knot vector. -/
+theorem accepted_divided_diffs_safe (a : Args) (hc : fitChecks repaired a = .ok) (i : Nat) (hi : i < a.data.ndim)
+    (row : Nat) (hrow : row < a.nsplAt i - a.penAt i) :
+    a.penAt i ≤ a.ordAt i ∧
+    dividedDiffs (a.ordAt i + 1) (a.nkAt i) (a.ordAt i) (a.penAt i) row (a.penAt i + 1) = .ok := by
+  have hn := checks_imply_needs a hc
+  have hk := hn.knots_len i hi
+  have hp := hn.pen_le i hi
+  have hs : a.nsplAt i = a.nkAt i - a.ordAt i - 1 := nsplinesOf_eq (by omega)
+  rw [hs] at hrow
+  exact ⟨hp, dividedDiffs_ok (by omega) _ _ _ (by omega) (by omega) (by omega) (fun _ => by omega)⟩
+
+/-- **The bound of the stack arrays is exact**: with `a[L], b[L]`, a penalty order above `L` always overruns them
+    (the read `a[porder-1]`), whatever knots and output array — so `porder ≤ order+1` is what memory safety needs
+    (fixes/C13-4 made `L = order+1`), and the sanity block's `porder ≤ order` is the stricter, numerically meaningful
+    bound (`porder = order+1` divides by `order-(porder-1) = 0`). -/
+theorem divided_diffs_bound_exact (L nk order p j outLen : Nat) (h : L ≤ p) :
+    dividedDiffs L nk order (p+1) j outLen ≠ .ok := by
+  intro hok
+  simp only [dividedDiffs, seqAll_cons_ok, seqAll_nil, rd_ok_iff] at hok
+  have := hok.2.2.2.2.2.2.2.2.1
+  omega
+
+/-- … while `porder = order+1` still fits them (for the repaired `order+1` cells). -/
+theorem divided_diffs_order_plus_one_fits (nk order j : Nat) (h : j + 2 * order + 1 < nk) :
+    dividedDiffs (order + 1) nk order (order + 1) j (order + 2) = .ok :=
+  dividedDiffs_ok (by omega) _ _ _ (by omega) (by omega) (by omega) (fun _ => by omega)
+
+/-- the monotone tail of `glamfit_complex`: the requested dimension exists, the cumulative sums stay inside the
+    coefficient array -/
+theorem accepted_monotone_tail_safe (a : Args) (hc : fitChecks repaired a = .ok) (hm : a.monodim ≠ noMonodim) :
+    a.monodim < a.data.ndim ∧ monoTail ((List.range a.data.ndim).map a.nsplAt) a.monodim = .ok := by
+  have hn := checks_imply_needs a hc
+  have hlt : a.monodim < a.data.ndim := by rcases hn.monodim with h | h; exact absurd h hm; exact h
+  exact ⟨hlt, monoTail_ok _ _ (by simpa using hlt)⟩
+
+example : fitChecks repaired good = .ok ∧ (1 : Nat) < good.data.ndim ∧ (0 : Nat) < good.nsplAt 0 - good.penAt 0 ∧
+    good.monodim ≠ noMonodim ∧ (0 : Nat) + 2 * 1 + 1 < 5 := by decide
+
+/-! ## Integer widths: from the assumption `SizesFit` to the decidable predicate `NoWrapB`
+
+`fitBodyW` (Model/FitEntry.lean) is `fitBody` with the C integer types.  `NoWrapB a` is a decidable condition on the
+arguments alone.  Proved: it implies the former assumption; together with what the sanity block establishes it makes
+`fitBodyW` fall through; nothing after the sanity block throws an argument error; the sanity block does **not** imply
+it (`head_basis_counter_overflows`, confirmed on the real code: UBSan `signed integer overflow` in bsplinebasis,
+SIGSEGV in the as-shipped build); and its `bsplinebasis` clause cannot be dropped (`basis_clause_necessary`). -/
+
+/-- the former standing assumption follows from the decidable predicate -/
+theorem noWrap_imply_sizesFit (a : Args) (hw : NoWrapB a = true) : SizesFit a := by
+  obtain ⟨_, h, _⟩ := (noWrapB_iff a).mp hw
+  intro i hi
+  have := (h i hi).1
+  have hI : I32 < U32 := by simp [I32, U32]
+  omega
+
+/-- every spline count is positive once the sanity block has passed -/
+theorem needs_nspl_pos (a : Args) (hn : Needs a) : ∀ x ∈ (List.range a.data.ndim).map a.nsplAt, 0 < x := by
+  intro x hx
+  obtain ⟨i, hi, rfl⟩ := List.mem_map.mp hx
+  have hi' : i < a.data.ndim := List.mem_range.mp hi
+  have := hn.knots_len i hi'
+  show 0 < nsplinesOf (a.nkAt i) (a.ordAt i)
+  rw [nsplinesOf_eq (by omega)]; omega
+
+/-- **needs_noWrap_imply_safeW.**  Under `Needs` and the size condition, every array access, every stack-array bound
+    *and every `int`/`long` computation* of the modelled routines is in range, and no unsigned quantity wraps — for
+    all dimensions, orders, knot counts and grid sizes that satisfy the (decidable) condition. -/
+theorem needs_noWrap_imply_safeW (a : Args) (hwf : a.data.WF) (hn : Needs a) (hw : NoWrapB a = true) :
+    fitBodyW repaired a = .ok := by
+  have hpos := needs_nspl_pos a hn
+  obtain ⟨n1, n2, n3, n4, n5, n6, n7, n8, n9, n10, n11, n12, n13, n14⟩ := hn
+  obtain ⟨w1, w2, w3⟩ := (noWrapB_iff a).mp hw
+  have hw1 : wsub32 a.data.ndim 1 = a.data.ndim - 1 := wsub32_of_le n1
+  have hns : ∀ i, i < a.data.ndim → nsplinesOf (a.nkAt i) (a.ordAt i) = a.nkAt i - a.ordAt i - 1 :=
+    fun i hi => nsplinesOf_eq (by have := n10 i hi; omega)
+  simp only [fitBodyW, repaired, seqAll_cons_ok, seqAll_nil, forN_ok_iff, rd_ok_iff, when_ok_iff, inU32_ok_iff,
+    and_true, hw1]
+  refine ⟨w1, fun j hj => by omega, fun i hi => by omega, fun i hi => by omega, by omega,
+    fun i hi => ⟨by omega, by omega, by omega⟩, by omega, by omega, fun i hi => by omega, ?_, ?_, ?_, ?_⟩
+  · intro i hi
+    have := n10 i hi
+    rw [hns i hi]; exact ⟨by omega, by omega⟩
+  · intro i hi
+    refine ⟨penIdx_lt n12 hi, smoothIdx_lt n11 hi, fun _ => ?_⟩
+    have := n10 i hi
+    exact calcPenaltyW_ok (by simp) hi (by rw [range_map_getD _ hi]; exact hns i hi) this (n13 i hi) rfl (w2 i hi).1
+  · intro i hi
+    have := n10 i hi
+    exact ⟨by rw [hwf.ranges_len]; exact hi, bsplineBasisW_ok (by omega) (n6 i hi) (w2 i hi).1 (w2 i hi).2⟩
+  · intro hm
+    have hne : a.monodim ≠ noMonodim := by simpa using hm
+    exact monoTailW_ok _ _ (by simp only [List.length_map, List.length_range]; omega) hpos w3
+
+/-- … in terms of the validator: whatever the repaired sanity block accepts and satisfies the size condition is safe. -/
+theorem accepted_noWrap_imply_safeW (a : Args) (hwf : a.data.WF) (hc : fitChecks repaired a = .ok)
+    (hw : NoWrapB a = true) : fitBodyW repaired a = .ok :=
+  needs_noWrap_imply_safeW a hwf (checks_imply_needs a hc) hw
+
+/-- Nothing behind the sanity block throws an argument error (all `std::logic_error`s come first). -/
+theorem body_never_rejects (c : Cfg) (a : Args) (e : Err) : fitBodyW c a ≠ .reject e := noRej_fitBodyW c a e
+
+/-- Under the size condition the table holds the strides the `Nat` model says (no `uint64_t` product wrapped). -/
+theorem noWrap_shape_eq (a : Args) (hn : Needs a) (hw : NoWrapB a = true) : fitShapeW a = fitShape a := by
+  obtain ⟨_, _, w3⟩ := (noWrapB_iff a).mp hw
+  have hIU : I64 < U64 := by simp [I64, U64]
+  unfold fitShapeW
+  have : stridesOfW (fitShape a).naxes = (fitShape a).strides :=
+    stridesOfW_eq (by show ncoeffs a < U64; omega) (needs_nspl_pos a hn)
+  rw [this]
+
+/-- **basis_clause_necessary.**  The `bsplinebasis` clause of `NoWrapB` cannot be dropped: if in some dimension the
+    dense basis matrix has 2^31 or more cells, the `int` counter `k` of bsplinebasis overflows (or an earlier
+    statement already went wrong) although the sanity block accepted the arguments. -/
+theorem basis_clause_necessary (a : Args) (i : Nat) (hi : i < a.data.ndim)
+    (hbig : I32 ≤ a.rangeOf i * a.nsplAt i) : ∃ f, fitBodyW repaired a = .fault f := by
+  refine fault_of_not_ok (fun hok => ?_) (noRej_fitBodyW _ _)
+  simp only [fitBodyW, seqAll_cons_ok, seqAll_nil, forN_ok_iff] at hok
+  have := (hok.2.2.2.2.2.2.2.2.2.2.2.1 i hi).2.1
+  exact bsplineBasisW_not_ok hbig this
+
+/-- 1-d, order 0, 32770 knots `0..32769` (32769 basis functions), 65536 abscissae, one data point, no smoothing:
+    a consistent argument tuple whose dense basis matrix has 2^31 + 65536 cells (16 GiB). -/
+def wBigBasis : Args := uniArgs 1 32770 0 65536 noMonodim
+
+/-- **The sanity block does not imply the size condition** (finding, fixes/C13-7.diff): `wBigBasis` is accepted and
+    consistent, violates only the `bsplinebasis` clause, and the counter overflows.  On the real code: UBSan
+    `signed integer overflow: 2147483647 + 1 cannot be represented in type 'int'` at splineutil.c:125; the as-shipped
+    build dies with SIGSEGV (`basis->x[k]` with `k = -2^31`). -/
+theorem head_basis_counter_overflows :
+    wBigBasis.data.WF ∧ fitChecks repaired wBigBasis = .ok ∧ Needs wBigBasis ∧ NoWrapB wBigBasis = false ∧
+    fitBody repaired wBigBasis = .ok ∧ ∃ f, fitBodyW repaired wBigBasis = .fault f := by
+  have hc : fitChecks repaired wBigBasis = .ok := uni_checks (by omega) (by omega) (by omega) (Or.inl rfl)
+  have hn := checks_imply_needs _ hc
+  have h0 : (0 : Nat) < wBigBasis.data.ndim := by decide
+  have hr : wBigBasis.rangeOf 0 = 65536 := uni_rangeOf (by omega)
+  have hs : wBigBasis.nsplAt 0 = 32769 := uni_nsplAt (by omega) (by omega)
+  have hk : wBigBasis.nkAt 0 = 32770 := uni_nkAt (by omega)
+  have hbig : I32 ≤ wBigBasis.rangeOf 0 * wBigBasis.nsplAt 0 := by rw [hr, hs]; decide
+  refine ⟨uni_wf, hc, hn, ?_, ?_, basis_clause_necessary _ 0 h0 hbig⟩
+  · cases h : NoWrapB wBigBasis with
+    | false => rfl
+    | true =>
+      have := ((noWrapB_iff _).mp h).2.1 0 h0
+      omega
+  · refine needs_imply_safe _ uni_wf ?_ hn
+    intro i hi
+    have : i = 0 := by have : i < 1 := hi; omega
+    subst this; rw [hk]; decide
+
+/-- **With the proposed repair** (fixes/C13-7.diff: `size_t row, col, k`) the clause weakens from "fewer than 2^31 cells"
+    to "the cell count fits `size_t`": `bsplinebasis` is then safe for every accepted dimension whose knot vector is
+    shorter than 2^31 — in particular for `wBigBasis` (confirmed on the real code: the repaired build completes the
+    call under ASan+UBSan without a report). -/
+theorem proposed_basis_counter_safe (a : Args) (hc : fitChecks repaired a = .ok) (i : Nat) (hi : i < a.data.ndim)
+    (hnk : a.nkAt i < I32) (hcells : a.rangeOf i * a.nsplAt i < U64) :
+    bsplineBasisW64 (a.nkAt i) (a.rangeOf i) (a.coordLen i) (a.ordAt i) = .ok := by
+  have hn := checks_imply_needs a hc
+  have := hn.knots_len i hi
+  exact bsplineBasisW64_ok (by omega) (hn.coord_len i hi) hnk hcells
+
+theorem proposed_basis_counter_safe_witness :
+    bsplineBasisW64 (wBigBasis.nkAt 0) (wBigBasis.rangeOf 0) (wBigBasis.coordLen 0) (wBigBasis.ordAt 0) = .ok := by
+  have hk : wBigBasis.nkAt 0 = 32770 := uni_nkAt (by omega)
+  have hr : wBigBasis.rangeOf 0 = 65536 := uni_rangeOf (by omega)
+  have hs : wBigBasis.nsplAt 0 = 32769 := uni_nsplAt (by omega) (by omega)
+  exact proposed_basis_counter_safe _ head_basis_counter_overflows.2.1 0 (by decide) (by rw [hk]; decide)
+    (by rw [hr, hs]; decide)
+
+/-- 8 dimensions with 256 basis functions each: consistent, accepted, and `ncoeffs = strides[0]*naxes[0]` wraps to 0 —
+    the table would describe 2^64 coefficients and own none.  (On the real code this call ends in "GLAM fit failed"
+    and an empty table, without a sanitizer report: the product clause of `NoWrapB` is sufficient, not necessary.) -/
+def wWrap : Args := uniArgs 8 257 0 1 noMonodim
+
+theorem head_ncoeffs_wraps :
+    fitChecks repaired wWrap = .ok ∧ ncoeffs wWrap = 2^64 ∧ ncoeffsW wWrap = 0 ∧ NoWrapB wWrap = false := by
+  have hc : fitChecks repaired wWrap = .ok := uni_checks (by omega) (by omega) (by omega) (Or.inl rfl)
+  have hn : ncoeffs wWrap = 2^64 := by
+    have : ncoeffs wWrap = (257 - 0 - 1) ^ 8 := uni_ncoeffs (by omega)
+    exact this.trans (by decide)
+  refine ⟨hc, hn, ?_, ?_⟩
+  · unfold ncoeffsW
+    rw [hn]; exact Nat.mod_self _
+  · cases h : NoWrapB wWrap with
+    | false => rfl
+    | true =>
+      have := ((noWrapB_iff _).mp h).2.2
+      rw [hn] at this
+      simp [I64] at this
+
+/-- `NoWrapB` holds for the consistent example of this file; the safety theorem applies to it -/
+example : NoWrapB good = true ∧ fitBodyW repaired good = .ok := by
+  have hwf : good.data.WF := ⟨rfl, rfl, by decide⟩
+  have hc : fitChecks repaired good = .ok := by decide
+  have hw : NoWrapB good = true := by decide
+  exact ⟨hw, accepted_noWrap_imply_safeW _ hwf hc hw⟩
+
+/-! ## The whole member function: occupied table, failure after the sanity block
+
+`fitEntry c h a x t` is `splinetable::fit` from its first to its last statement (Model/FitEntry.lean); `head` = the code
+in /repo (refuses a populated table, `storage_guard`), `upstream` = without the two C20 repairs. -/
+
+/-- **entry_occupied_refused** (C20's "fit refuses an occupied table", for every argument tuple, valid or not). -/
+theorem entry_occupied_refused (c : Cfg) (a : Args) (x : Ext) (s : Shape) :
+    fitEntry c head a x (some s) = (.occupied, some s) := by
+  simp [fitEntry, head]
+
+/-- **entry_failure_leaves_unchanged.**  At HEAD *every* call that does not succeed — occupied table, argument error,
+    allocation failure, GLAM failure — leaves the table exactly as it was (model state equality), whatever the code
+    of the sanity block (`c`) is. -/
+theorem entry_failure_leaves_unchanged (c : Cfg) (a : Args) (x : Ext) (t : Tbl)
+    (hne : (fitEntry c head a x t).1 ≠ .ok) (hnf : (fitEntry c head a x t).1.isFault = false) :
+    (fitEntry c head a x t).2 = t := by
+  cases t with
+  | some s => rw [entry_occupied_refused]
+  | none =>
+    unfold fitEntry at hne hnf ⊢
+    simp only [head, Option.isSome_none, Bool.and_false, Bool.false_eq_true, if_false] at hne hnf ⊢
+    cases hc : fitChecks c a with
+    | reject e => rfl
+    | fault f => rfl
+    | ok =>
+      simp only [hc] at hne hnf ⊢
+      cases hb : fitBodyW c a with
+      | reject e => exact absurd hb (noRej_fitBodyW c a e)
+      | fault f => simp [hb, Verdict.isFault] at hnf
+      | ok =>
+        simp only [hb] at hne ⊢
+        cases x with
+        | done => simp at hne
+        | badAlloc => rfl
+        | glamFailed => rfl
+
+/-- **entry_never_faults** — `fit_never_faults` for the whole member function and with the integer widths, under the
+    decidable size condition instead of `SizesFit`. -/
+theorem entry_never_faults (h : Head) (a : Args) (hwf : a.data.WF) (hw : NoWrapB a = true) (x : Ext) (t : Tbl) :
+    (fitEntry repaired h a x t).1.isFault = false := by
+  unfold fitEntry
+  split
+  · rfl
+  · cases hc : fitChecks repaired a with
+    | reject e => rfl
+    | fault f => have := checks_never_fault a hwf; rw [hc] at this; simp [Out.isFault] at this
+    | ok =>
+      simp only
+      rw [accepted_noWrap_imply_safeW a hwf hc hw]
+      cases x <;> rfl
+
+/-- **entry_ok_iff.**  The call succeeds exactly when the table is empty, the arguments are consistent and nothing
+    external fails; the table is then the one `fitShape` describes. -/
+theorem entry_ok_iff (a : Args) (hwf : a.data.WF) (hw : NoWrapB a = true) (x : Ext) (t : Tbl) :
+    (fitEntry repaired head a x t).1 = .ok ↔ (t = none ∧ Needs a ∧ x = .done) := by
+  constructor
+  · intro hok
+    cases t with
+    | some s => rw [entry_occupied_refused] at hok; cases hok
+    | none =>
+      unfold fitEntry at hok
+      simp only [head, Option.isSome_none, Bool.and_false, Bool.false_eq_true, if_false] at hok
+      cases hc : fitChecks repaired a with
+      | reject e => simp [hc] at hok
+      | fault f => simp [hc] at hok
+      | ok =>
+        refine ⟨rfl, checks_imply_needs a hc, ?_⟩
+        simp only [hc, accepted_noWrap_imply_safeW a hwf hc hw] at hok
+        cases x <;> simp_all
+  · rintro ⟨rfl, hn, rfl⟩
+    have hc := needs_imply_checks a hwf hn
+    simp [fitEntry, head, hc, needs_noWrap_imply_safeW a hwf hn hw]
+
+theorem entry_ok_table (a : Args) (hwf : a.data.WF) (hw : NoWrapB a = true) (hn : Needs a) :
+    fitEntry repaired head a .done none = (.ok, some (fitShape a)) := by
+  have hc := needs_imply_checks a hwf hn
+  simp [fitEntry, head, hc, needs_noWrap_imply_safeW a hwf hn hw, noWrap_shape_eq a hn hw]
+
+/-- **entry_solver_failure_leaves_empty** (the failure paths behind the sanity block).  Consistent arguments on an
+    empty table, and an allocation or `glamfit_complex` fails: the caller gets `bad_alloc` resp. "GLAM fit failed",
+    and the table is empty again — no half-built table is ever observable at HEAD. -/
+theorem entry_solver_failure_leaves_empty (a : Args) (hwf : a.data.WF) (hw : NoWrapB a = true) (hn : Needs a) :
+    fitEntry repaired head a .badAlloc none = (.badAlloc, none) ∧
+    fitEntry repaired head a .glamFailed none = (.glam, none) := by
+  have hc := needs_imply_checks a hwf hn
+  constructor <;> simp [fitEntry, head, hc, needs_noWrap_imply_safeW a hwf hn hw]
+
+/-- **entry_inconsistent_rejected.**  Inconsistent arguments on an empty table: a `std::logic_error` of the sanity
+    block, whatever would have happened later, and the table stays empty. -/
+theorem entry_inconsistent_rejected (h : Head) (a : Args) (hwf : a.data.WF) (x : Ext) (hn : ¬ Needs a) :
+    ∃ e, e ≠ Err.glam ∧ fitEntry repaired h a x none = (.arg e, none) := by
+  obtain ⟨e, he, hf⟩ := inconsistent_rejected a hwf true none hn
+  refine ⟨e, he, ?_⟩
+  unfold fit at hf
+  cases hc : fitChecks repaired a with
+  | ok => rw [hc] at hf; simp only at hf; split at hf <;> simp_all
+  | fault f => rw [hc] at hf; simp at hf
+  | reject e' =>
+    rw [hc] at hf
+    have : e' = e := by simpa using hf
+    subst this
+    simp [fitEntry, hc]
+
+/-- Link to the definitions of the first part: on an empty table, under the size condition, `fitEntry` without the two
+    C20 repairs is `fit` (verdicts renamed), so every theorem about `fit repaired` speaks about the entry point. -/
+theorem entry_upstream_eq_fit (a : Args) (hwf : a.data.WF) (hw : NoWrapB a = true) (x : Ext) (t : Tbl) :
+    fitEntry repaired upstream a x t =
+      (match (fit repaired a (decide (x = .done)) t).1 with
+        | .ok => .ok
+        | .reject .glam => (if x = .badAlloc then .badAlloc else .glam)
+        | .reject e => .arg e
+        | .fault f => .fault f,
+       (fit repaired a (decide (x = .done)) t).2) := by
+  unfold fitEntry fit
+  simp only [upstream, Bool.false_and, Bool.false_eq_true, if_false]
+  cases hc : fitChecks repaired a with
+  | reject e =>
+    simp only
+    have : e ≠ .glam := by
+      intro he; subst he
+      by_cases hn : Needs a
+      · rw [needs_imply_checks a hwf hn] at hc; cases hc
+      · obtain ⟨e', he', hf⟩ := inconsistent_rejected a hwf true none hn
+        simp [fit, hc] at hf; exact he' hf.symm
+    cases e <;> simp_all
+  | fault f => rfl
+  | ok =>
+    have hn := checks_imply_needs a hc
+    simp only [needs_noWrap_imply_safeW a hwf hn hw, needs_imply_safe a hwf (noWrap_imply_sizesFit a hw) hn,
+      noWrap_shape_eq a hn hw]
+    cases x <;> simp
+
+/-- The C wrapper on top of the entry point: non-zero exactly when a handle is null or the call did not succeed … -/
+theorem cwrapperEntry_nonzero_iff (c : Cfg) (h : Head) (tableNull dataNull : Bool) (ca : CArgs) (x : Ext) (t : Tbl) :
+    (cGlamfitEntry c h tableNull dataNull ca x t).1 ≠ 0 ↔
+      (tableNull = true ∨ dataNull = true ∨ (fitEntry c h ca.view x t).1 ≠ .ok) := by
+  unfold cGlamfitEntry
+  cases tableNull <;> cases dataNull <;> simp
+  cases hf : fitEntry c h ca.view x t with
+  | mk o t' => cases o <;> simp
+
+/-- … and at HEAD a non-zero return (that is not a memory fault) leaves the table behind the handle unchanged, for
+    every reason of failure. -/
+theorem cwrapperEntry_failure_unchanged (c : Cfg) (tableNull dataNull : Bool) (ca : CArgs) (x : Ext) (t : Tbl)
+    (hnz : (cGlamfitEntry c head tableNull dataNull ca x t).1 ≠ 0)
+    (hnf : (fitEntry c head ca.view x t).1.isFault = false) :
+    (cGlamfitEntry c head tableNull dataNull ca x t).2 = t := by
+  have hiff := (cwrapperEntry_nonzero_iff c head tableNull dataNull ca x t).mp hnz
+  unfold cGlamfitEntry at hnz ⊢
+  by_cases hnull : (tableNull || dataNull) = true
+  · simp [hnull]
+  · have hn' : tableNull = false ∧ dataNull = false := by
+      cases tableNull <;> cases dataNull <;> simp_all
+    have hne : (fitEntry c head ca.view x t).1 ≠ .ok := by
+      rcases hiff with h | h | h
+      · simp [hn'.1] at h
+      · simp [hn'.2] at h
+      · exact h
+    have := entry_failure_leaves_unchanged c ca.view x t hne hnf
+    simp only [hn'.1, hn'.2, Bool.or_self, Bool.false_eq_true, if_false]
+    cases hf : fitEntry c head ca.view x t with
+    | mk o t' =>
+      rw [hf] at this
+      cases o <;> simpa using this
+
+/-- Without the two C20 repairs: a populated table is overwritten (its storage leaks, C20), and a GLAM failure leaves
+    the new, unusable table behind. -/
+theorem upstream_entry_witnesses :
+    fitEntry repaired upstream good .done (some (fitShape wOrderZero)) = (.ok, some (fitShape good)) ∧
+    fitEntry repaired upstream good .glamFailed none = (.glam, some (fitShape good)) ∧
+    fitEntry repaired head good .glamFailed none = (.glam, none) ∧
+    fitEntry repaired head good .done (some (fitShape wOrderZero)) = (.occupied, some (fitShape wOrderZero)) := by
+  decide
+
+/-- non-vacuity of the entry-point theorems: `good` satisfies their hypotheses, `wPenalty` is inconsistent -/
+example : good.data.WF ∧ NoWrapB good = true ∧ Needs good ∧ ¬ Needs wPenalty ∧
+    (fitEntry repaired head wPenalty .done (some (fitShape good))).1 ≠ .ok ∧
+    (fitEntry repaired head wPenalty .done (some (fitShape good))).1.isFault = false ∧
+    (cGlamfitEntry repaired head false false ⟨good.data, [2, 0], good.knots, [true, true], [0, 3], 1⟩ .done none).1 ≠ 0 := by
+  refine ⟨⟨rfl, rfl, by decide⟩, by decide, checks_imply_needs _ (by decide), fun h => ?_, by decide, by decide,
+    by decide⟩
+  have := h.pen_le 0 (by decide)
+  revert this; decide
+
+
+/-! ## Agreement with C20's life-cycle model
+
+`PsV.Lifecycle.fit` (Model/Lifecycle.lean, property C20) abstracts the arguments of `fit` to a flag `valid`.  The
+theorem gives that flag its meaning (`toLifecycle`: `valid` = the repaired sanity block accepts = `Needs`) and shows that
+the two hand-written models of `splinetable::fit` agree where they overlap: same success/exception verdict, and the
+table is non-empty afterwards in the one exactly when it is in the other.  (Allocation failures are a countdown in
+C20's model and `Ext.badAlloc` here; the theorem is about the runs without one.) -/
+
+theorem entry_agrees_with_lifecycle (a : Args) (hwf : a.data.WF) (hw : NoWrapB a = true) (x : Ext)
+    (hx : x ≠ .badAlloc) (t : PsV.Lifecycle.Tab) (tb : Tbl) (hrel : tb.isSome = true ↔ t.ndim ≠ 0) :
+    ((PsV.Lifecycle.fit PsV.Lifecycle.Cfg.head t none (toLifecycle a x)).res = .ok ↔
+        (fitEntry repaired head a x tb).1 = .ok) ∧
+    ((PsV.Lifecycle.fit PsV.Lifecycle.Cfg.head t none (toLifecycle a x)).res = .threw ↔
+        (fitEntry repaired head a x tb).1 ≠ .ok) ∧
+    ((PsV.Lifecycle.fit PsV.Lifecycle.Cfg.head t none (toLifecycle a x)).tab.ndim ≠ 0 ↔
+        (fitEntry repaired head a x tb).2.isSome = true) := by
+  by_cases ht : t.ndim = 0
+  · -- empty table on both sides
+    have htb : tb = none := by
+      cases tb with
+      | none => rfl
+      | some s => exact absurd ht (hrel.mp rfl)
+    subst htb
+    by_cases hn : Needs a
+    · have hc := needs_imply_checks a hwf hn
+      have hb := needs_noWrap_imply_safeW a hwf hn hw
+      have hlen := toLifecycle_dims_length a x
+      have hnd := hn.ndim_pos
+      have hd : (toLifecycle a x).dims ≠ [] := by
+        intro h; rw [h] at hlen; simp at hlen; omega
+      have hv : (toLifecycle a x).valid = true := by simp [toLifecycle, hc]
+      rw [lifecycle_fit_empty_valid t _ ht hv hd]
+      cases x with
+      | badAlloc => exact absurd rfl hx
+      | done =>
+        obtain ⟨h1, h2⟩ := build_ok_of_complete true t (PsV.Lifecycle.fitSteps (toLifecycle a .done))
+          (PsV.Lifecycle.fitTarget (toLifecycle a .done) t) (toLifecycle a .done).dims.length
+          (fitSteps_complete _ (by simp [toLifecycle]))
+        rw [h1, h2]
+        have he : fitEntry repaired head a .done none = (.ok, some (fitShapeW a)) := by
+          simp [fitEntry, head, hc, hb]
+        rw [he]
+        simp only [PsV.Lifecycle.fitTarget, hlen]
+        refine ⟨by simp, by simp, by simp; omega⟩
+      | glamFailed =>
+        obtain ⟨h1, h2⟩ := build_guard_of_failed t (PsV.Lifecycle.fitSteps (toLifecycle a .glamFailed))
+          (PsV.Lifecycle.fitTarget (toLifecycle a .glamFailed) t) (toLifecycle a .glamFailed).dims.length
+          (fitSteps_failed _ (by simp [toLifecycle]))
+        rw [h1, h2, (entry_solver_failure_leaves_empty a hwf hw hn).2]
+        simp [ht]
+    · have hv : (toLifecycle a x).valid = false := by
+        simp only [toLifecycle, decide_eq_false_iff_not]
+        exact fun hc => hn (checks_imply_needs a hc)
+      obtain ⟨e, _, he⟩ := entry_inconsistent_rejected head a hwf x hn
+      rw [he, lifecycle_fit_empty_invalid t _ ht hv]
+      simp [ht]
+  · -- populated table: refused by both
+    have htb : tb.isSome = true := hrel.mpr ht
+    obtain ⟨s, rfl⟩ := Option.isSome_iff_exists.mp htb
+    rw [entry_occupied_refused, lifecycle_fit_occupied t _ ht]
+    simp [ht]
+
+/-- non-vacuity: an empty and a fitted life-cycle table, related to `none` / `some _` -/
+example : good.data.WF ∧ NoWrapB good = true ∧ Ext.glamFailed ≠ Ext.badAlloc ∧
+    ((none : Tbl).isSome = true ↔ PsV.Lifecycle.Tab.empty.ndim ≠ 0) ∧
+    ((some (fitShape good) : Tbl).isSome = true ↔ ({ ndim := 2 } : PsV.Lifecycle.Tab).ndim ≠ 0) ∧
+    (PsV.Lifecycle.fit PsV.Lifecycle.Cfg.head PsV.Lifecycle.Tab.empty none (toLifecycle good .done)).res = .ok := by
+  refine ⟨⟨rfl, rfl, by decide⟩, by decide, by decide, by decide, by decide, by decide⟩
+
+
+/-! ## Accepted, but the solver's precondition cannot hold (link to C09 / C10)
+
+The sanity block checks shapes, not well-posedness.  `UnderdeterminedB a` (no smoothing in any dimension, fewer data
+points than coefficients) is a decidable class of argument tuples that the sanity block accepts although the normal
+matrix `BᵀWB` of *every* numerical fit problem of that shape is singular — the precondition "positive definite" of
+C09's `C09_fit_is_minimiser` / of `cholesky_solve` fails whatever the knots, abscissae, weights and data are.  What
+the code then does is not an argument error (observed: `cholesky_solve` returns non-finite or arbitrary coefficients
+with status 0; `fit` reports success) and belongs to C09/C10; if the solver does report failure, the table is empty
+again (`entry_solver_failure_leaves_empty`). -/
+
+section wellposed
+open PsV PsV.NormalEq PsV.Arith
+variable {α : Type} [Field α] [LinearOrder α] [IsStrictOrderedRing α] [A : Arith α] [L : LawfulArith α]
+
+/-- a numerical fit problem (C09's `FitProblem`: knots, abscissae, data rows, expanded smoothing) of the shape of `a` -/
+structure InstanceOf (P : FitProblem α) (a : Args) : Prop where
+  rows : P.rows.size = a.data.rows
+  ncoef : P.ncoef = ncoeffs a
+  smooth : (∀ i, i < a.data.ndim → a.smoothAt i = false) → ∀ l ∈ P.smooth, l = 0
+
+/-- **underdetermined_not_wellposed.**  For every numerical instance of an `UnderdeterminedB` argument tuple the
+    normal matrix is not positive definite. -/
+theorem underdetermined_not_wellposed (a : Args) (hu : UnderdeterminedB a = true) (P : FitProblem α)
+    (hP : InstanceOf P a) (hw : ∀ r < P.rows.size, 0 ≤ rowW P r) : ¬ PosDef P.ncoef (Mf P) := by
+  simp only [UnderdeterminedB, Bool.and_eq_true, List.all_eq_true, List.mem_range, Bool.not_eq_true',
+    decide_eq_true_eq] at hu
+  exact underdetermined_not_posDef P hw (hP.smooth hu.1) (by rw [hP.rows, hP.ncoef]; exact hu.2)
+
+end wellposed
+
+/-- 1-d, order 1, knots 0..3 (two coefficients), three abscissae, ONE data point, no smoothing -/
+def wUnder : Args := ⟨⟨1, 1, [3], [[0]]⟩, 1, [3], [1], [kn [0, 1, 2, 3]], [false], [1], noMonodim⟩
+
+/-- … is consistent, within the size condition, accepted, and `fit` builds the table when the solver reports success. -/
+theorem accepted_underdetermined_exists :
+    fitChecks repaired wUnder = .ok ∧ NoWrapB wUnder = true ∧ UnderdeterminedB wUnder = true ∧
+    fitEntry repaired head wUnder .done none = (.ok, some (fitShape wUnder)) := by decide
+
+/-- non-vacuity: C09's example problem without smoothing, cut down to its first data row, is an instance of `wUnder` -/
+example : InstanceOf ({ PsV.exP0 with rows := #[⟨[0], 1, 1⟩] } : PsV.FitProblem Rat) wUnder ∧
+    (∀ r < ({ PsV.exP0 with rows := #[⟨[0], 1, 1⟩] } : PsV.FitProblem Rat).rows.size,
+      0 ≤ PsV.rowW ({ PsV.exP0 with rows := #[⟨[0], 1, 1⟩] } : PsV.FitProblem Rat) r) := by
+  refine ⟨⟨rfl, by decide, fun _ l hl => ?_⟩, fun r hr => ?_⟩
+  · simp [PsV.exP0, PsV.exP] at hl; exact hl
+  · have : r = 0 := by simp at hr; omega
+    subst this; decide +kernel
 
 end PsV.Fit
